@@ -571,8 +571,8 @@ def ms_demo_params_to_dadi(nu_ms,tau_ms):
     return 1./nu_ms,2*tau_ms/nu_ms
 
 def optimal_sfs_scaling(model,data):
-    data = numerics.fold(data)
-    model = numerics.fold(data)
+    data = fold(data)
+    model = fold(model)
     model, data = Numerics.intersect_masks(model, data)
     return data.sum()/model.sum()
 
